@@ -1,7 +1,13 @@
 package sim
 
 func init() {
-	engines["C07"] = RunPipe
+	engines["C07"] = func(r *Run) {
+		if *flagMode == "race" {
+			RunPipeRace(r)
+			return
+		}
+		RunPipe(r)
+	}
 	engines["C09"] = RunStream
 	engines["C10"] = func(r *Run) { RunHistEdit(r, "marshal") }
 	engines["C13"] = func(r *Run) { RunHistEdit(r, "set") }
